@@ -307,12 +307,19 @@ fn string_kinds(cx: &mut Ctx, refd: &serde_json::Value) {
                         let body = sm::tsc(sm::unblock(&arm.body));
                         let kind = body.strip_prefix("Ok(StringKind::").and_then(|x| x.strip_suffix(')')).map(|x| x.to_string());
                         if arg.contains("[char;2]") {
-                            if let syn::Pat::Slice(sl) = &arm.pat {
-                                if sl.elems.len() == 2 {
-                                    if let (Some(a), Some(b), Some(k)) = (pat_chars(&sl.elems[0]), pat_chars(&sl.elems[1]), kind.clone()) {
-                                        for x in &a {
-                                            for y in &b {
-                                                got2.insert(format!("{}{}", x, y), k.clone());
+                            // `[a, b]` or an or-pattern of such pairs; the first arm that matches a pair decides
+                            let alts: Vec<&syn::Pat> = match &arm.pat {
+                                syn::Pat::Or(o) => o.cases.iter().collect(),
+                                other => vec![other],
+                            };
+                            for alt in alts {
+                                if let syn::Pat::Slice(sl) = alt {
+                                    if sl.elems.len() == 2 {
+                                        if let (Some(a), Some(b), Some(k)) = (pat_chars(&sl.elems[0]), pat_chars(&sl.elems[1]), kind.clone()) {
+                                            for x in &a {
+                                                for y in &b {
+                                                    got2.entry(format!("{}{}", x, y)).or_insert(k.clone());
+                                                }
                                             }
                                         }
                                     }
